@@ -7,6 +7,7 @@ import FitProps.WriterShortLemmas
 import FitProps.WriterPanicLemmas
 import FitProps.WriterCtxLemmas
 import FitProps.WriterCtxCrashLemmas
+import FitProps.WriterCtxReachLemmas
 /-!
 # C11 — Destination failures surface as errors; incomplete output is never a valid file
 
@@ -541,6 +542,42 @@ theorem C11_ctx_cancel_is_crash_prefix {σ : Type} (V : MsgValidator σ) (cc : C
       (encodeCtxV V cc F o c ⟨e, false⟩ f).1.e.w.d = e.w.d.run ops1 ∧
       (encodeV V F o e f).1.w.d = e.w.d.run (ops1 ++ ops2) :=
   encodeCtxV_prefix V cc F o c e f
+
+/-- A CANCELLED CALL NEVER LEAVES A VALID COMPLETE FILE. A FIT value with a default (zero) header (`ZeroHdr`), any destination kind
+and buffer size, a destination that is empty or holds an accepted stream, ANY fault schedule and ANY cancellation point:
+(1) whatever `EncodeWithContext` leaves on the destination is accepted by the integrity check only if it is `d₀` alone or `d₀`
+    followed by the COMPLETE sequence — never anything in between (the cancelled call has written a prefix of the first pass:
+    placeholder header, records; it never rewrites the header);
+(2) a call that returned `ctx.Err()` has not left the complete sequence (at least the file CRC is missing);
+hence (3): after a call that returned `ctx.Err()` the integrity check accepts the destination only if NOTHING of the call's
+output is visible in it. -/
+theorem C11_ctx_cancel_never_valid (cc : CtxCfg) (F : Faults) (o : Opts) (c : Ctx) (kind : Kind) (size : Nat) (d₀ : Dest) (n₀ : Nat)
+    (f : FitIn) (hend : d₀.pos = d₀.content.length) (hown : kind = .at → n₀ = d₀.content.length)
+    (hbase : d₀.content = [] ∨ Acc d₀.content) (hz : ZeroHdr o f) :
+    (Acc (encodeCtx cc F o c ⟨Fit.C09.encOn o kind size d₀ n₀, false⟩ f).1.e.w.d.content →
+      (encodeCtx cc F o c ⟨Fit.C09.encOn o kind size d₀ n₀, false⟩ f).1.e.w.d.content = d₀.content ∨
+      (encodeCtx cc F o c ⟨Fit.C09.encOn o kind size d₀ n₀, false⟩ f).1.e.w.d.content = d₀.content ++ encodeFit o f.hdr f.msgs) ∧
+    ((encodeCtx cc F o c ⟨Fit.C09.encOn o kind size d₀ n₀, false⟩ f).2 = .ec →
+      (encodeCtx cc F o c ⟨Fit.C09.encOn o kind size d₀ n₀, false⟩ f).1.e.w.d.content ≠ d₀.content ++ encodeFit o f.hdr f.msgs) ∧
+    ((encodeCtx cc F o c ⟨Fit.C09.encOn o kind size d₀ n₀, false⟩ f).2 = .ec →
+      Acc (encodeCtx cc F o c ⟨Fit.C09.encOn o kind size d₀ n₀, false⟩ f).1.e.w.d.content →
+      (encodeCtx cc F o c ⟨Fit.C09.encOn o kind size d₀ n₀, false⟩ f).1.e.w.d.content = d₀.content) := by
+  have hr := Fit.C09.encOn_ready o kind size d₀ n₀ hend hown
+  have h1 : Acc (encodeCtx cc F o c ⟨Fit.C09.encOn o kind size d₀ n₀, false⟩ f).1.e.w.d.content →
+      (encodeCtx cc F o c ⟨Fit.C09.encOn o kind size d₀ n₀, false⟩ f).1.e.w.d.content = d₀.content ∨
+      (encodeCtx cc F o c ⟨Fit.C09.encOn o kind size d₀ n₀, false⟩ f).1.e.w.d.content = d₀.content ++ encodeFit o f.hdr f.msgs :=
+    fun hacc => reach_acc o kind f d₀.content _ hz hbase (encodeCtx_reach cc F o c (Fit.C09.encOn o kind size d₀ n₀) f hr) hacc
+  have h2 : (encodeCtx cc F o c ⟨Fit.C09.encOn o kind size d₀ n₀, false⟩ f).2 = .ec →
+      (encodeCtx cc F o c ⟨Fit.C09.encOn o kind size d₀ n₀, false⟩ f).1.e.w.d.content ≠ d₀.content ++ encodeFit o f.hdr f.msgs := by
+    intro hec heq
+    have hl := encodeCtx_ec_short cc F o c (Fit.C09.encOn o kind size d₀ n₀) f hr hec
+    rw [heq, List.length_append] at hl
+    have : (Fit.C09.encOn o kind size d₀ n₀).w.d.content.length = d₀.content.length := rfl
+    omega
+  refine ⟨h1, h2, fun hec hacc => ?_⟩
+  rcases h1 hacc with h | h
+  · exact h
+  · exact absurd h (h2 hec)
 
 /-- not vacuous: an unbuffered WriteSeeker, two messages, the context cancelled before the second poll — the call returns
 `ctx.Err()`, the destination has seen the header write and the two writes of the first message (3 of the 8 operations of the
